@@ -234,6 +234,12 @@ func (s *Sim) point(t *Task, op opKind, addr uintptr, tag string) {
 	}
 }
 
+//go:norace
+func (t *Task) isKilled() bool { return t.killed }
+
+//go:norace
+func (t *Task) kill() { t.killed = true }
+
 func (s *Sim) start(t *Task) {
 	s.wg.Add(1)
 	go func() {
@@ -242,7 +248,7 @@ func (s *Sim) start(t *Task) {
 			return
 		}
 		defer func() {
-			if t.killed {
+			if t.isKilled() {
 				return
 			}
 			if r := recover(); r != nil {
@@ -434,6 +440,16 @@ func (s *Sim) Run() {
 			s.Pollers = len(elig)
 			break
 		}
+		// a task whose last poll found nothing waits until somebody else has
+		// made a step (it cannot observe anything new before that)
+		k := 0
+		for _, t := range elig {
+			if !(t.op == opPoll && t.polled) {
+				elig[k] = t
+				k++
+			}
+		}
+		elig = elig[:k]
 		if s.Steps >= s.StepCap {
 			s.StepCapHit = true
 			break
@@ -473,7 +489,7 @@ func (s *Sim) Run() {
 		s.aborted = true
 		for _, t := range s.tasks {
 			if !t.done {
-				t.killed = true
+				t.kill()
 				syscall.Close(t.w)
 			}
 		}
